@@ -79,6 +79,16 @@ func expectedEvents(m *kit.Model, tx kit.TxSpec) (evs []kit.Event, commits bool,
 		case "delete":
 			typ, ent = "deleted", pre.Ents["things"][op.ID]
 		}
+		if typ == "updated" {
+			// the state before the update, as the constraints of the parent store and of the child store see it
+			before := pre.Ents["things"][op.ID]
+			evs = append(evs, kit.Event{Store: "things", Style: "typed-constraint-initial", Type: typ, ID: op.ID, Info: kit.MEntInfo(before, "")})
+			for _, cc := range m.Cfg.Children {
+				if _, isKid := ent.Kid[cc.Name]; isKid {
+					evs = append(evs, kit.Event{Store: cc.Name, Style: "typed-constraint-initial", Type: typ, ID: op.ID, Info: kit.MEntInfo(before, cc.Name)})
+				}
+			}
+		}
 		for _, cc := range m.Cfg.Children {
 			if _, isKid := ent.Kid[cc.Name]; cc.Extended && !isKid {
 				// an extended store "sees" every parent entity: whether it reports plain parents is not stated
